@@ -33,13 +33,13 @@ type polSpec struct {
 
 func c10Policies(c *Ctx, r *Report) {
 	r.rule("C10.R1", "only available upstreams are returned; no method call on a nil slot (per policy, pools of 0..3, all availability/count vectors and random draws)", 6)
-	r.rule("C10.R2", "an upstream is returned whenever one is available (first, random, least_conn); nil is returned when none is (all policies)", 6)
+	r.rule("C10.R2", "an upstream is returned whenever one is available (first, random, least_conn, round_robin over every starting counter value); nil is returned when none is (all policies)", 6)
 	r.rule("C10.R3", "first returns the earliest available upstream; least_conn returns one with the fewest connections among the available", 2)
 	specs := []polSpec{
 		{typ: "FirstSelection", iff: true, first: true, maxN: 3},
 		{typ: "RandomSelection", iff: true, maxN: 3},
 		{typ: "LeastConnSelection", iff: true, least: true, maxN: 3},
-		{typ: "RoundRobinSelection", maxN: 3},
+		{typ: "RoundRobinSelection", iff: true, maxN: 3},
 		{typ: "IPHashSelection", maxN: 3},
 		{typ: "RandomChoiceSelection", maxN: 3, choose: 2},
 	}
@@ -53,102 +53,145 @@ func c10Policies(c *Ctx, r *Report) {
 		}
 		var p1, p2, p3 []string
 		total := 0
+		unknownSlot := ""
 		for n := 0; n <= sp.maxN; n++ {
-			sc := &Scenario{Name: fmt.Sprintf("n=%d", n), MaxVisit: 8, MaxPaths: 200000,
-				Params: map[string]SV{"recv": symRef("r", false), "p0": symSlice("pool", int64(n)), "p1": symRef("conn", false)},
-				Heap:   map[string]SV{"r.Choose": symInt(sp.choose)},
-				Inline: func(f *ssa.Function) bool {
-					nm := fname(f)
-					return nm == "modules/l4proxy.leastConns" || nm == "modules/l4proxy.hostByHashing"
-				},
+			// the pool state is fixed per evaluation: availability of every upstream and (for least_conn) its
+			// number of connections - whether or not the policy asks for them
+			nConn := 1
+			if sp.least {
+				nConn = 3
 			}
+			nStates := 1
 			for i := 0; i < n; i++ {
-				sc.Heap[fmt.Sprintf("pool[%d]", i)] = symRef(fmt.Sprintf("pool[%d]", i), false)
+				nStates *= 2 * nConn
 			}
-			sc.Call = func(callee string, args []SV, ev *symEval, st *symState) (SV, bool) {
-				switch {
-				case strings.HasPrefix(callee, "invoke net."), callee == "net.SplitHostPort", callee == "modules/l4proxy.hash", strings.HasSuffix(callee, ".String"):
-					if callee == "net.SplitHostPort" {
-						return SV{K: "tuple", Desc: "split", Elems: []SV{{K: "str", Desc: "ip"}, {K: "str", Desc: "port"}, {K: "ref", Desc: "splitErr"}}}, true
-					}
-					if callee == "modules/l4proxy.hash" {
-						return SV{K: "int", Desc: ev.fresh("hash")}, true
-					}
-					return symOpaque(shortCallee(callee)), true
+			for state := 0; state < nStates; state++ {
+				availV := make([]bool, n)
+				connV := make([]int64, n)
+				x := state
+				for i := 0; i < n; i++ {
+					availV[i] = x%2 == 1
+					x /= 2
+					connV[i] = int64(x % nConn)
+					x /= nConn
 				}
-				return SV{}, false
-			}
-			sc.Alts = func(callee string, args []SV, ev *symEval, st *symState) []CallAlt {
-				switch callee {
-				case availID:
-					return []CallAlt{{Ret: symBool(true), Note: "T"}, {Ret: symBool(false), Note: "F"}}
-				case totalID:
-					return []CallAlt{{Ret: symInt(0), Note: "0"}, {Ret: symInt(1), Note: "1"}, {Ret: symInt(2), Note: "2"}}
-				case "math/rand.Intn":
-					if len(args) == 1 && args[0].K == "int" && args[0].Known && args[0].N <= 4 {
+				idxOf := func(desc string) int {
+					for i := 0; i < n; i++ {
+						if desc == fmt.Sprintf("pool[%d]", i) {
+							return i
+						}
+					}
+					return -1
+				}
+				sc := &Scenario{Name: fmt.Sprintf("n=%d avail=%v conns=%v", n, availV, connV), MaxVisit: 8, MaxPaths: 200000,
+					Params: map[string]SV{"recv": symRef("r", false), "p0": symSlice("pool", int64(n)), "p1": symRef("conn", false)},
+					Heap:   map[string]SV{"r.Choose": symInt(sp.choose)},
+					Inline: func(f *ssa.Function) bool {
+						nm := fname(f)
+						return nm == "modules/l4proxy.leastConns" || nm == "modules/l4proxy.hostByHashing"
+					},
+				}
+				for i := 0; i < n; i++ {
+					sc.Heap[fmt.Sprintf("pool[%d]", i)] = symRef(fmt.Sprintf("pool[%d]", i), false)
+				}
+				sc.Call = func(callee string, args []SV, ev *symEval, st *symState) (SV, bool) {
+					switch {
+					case callee == availID:
+						if k := idxOf(args[0].Desc); k >= 0 {
+							return symBool(availV[k]), true
+						}
+						unknownSlot = args[0].Desc
+						return symBool(false), true
+					case callee == totalID:
+						if k := idxOf(args[0].Desc); k >= 0 {
+							return symInt(connV[k]), true
+						}
+						unknownSlot = args[0].Desc
+						return symInt(0), true
+					case strings.HasPrefix(callee, "invoke net."), callee == "net.SplitHostPort", callee == "modules/l4proxy.hash", strings.HasSuffix(callee, ".String"):
+						if callee == "net.SplitHostPort" {
+							return SV{K: "tuple", Desc: "split", Elems: []SV{{K: "str", Desc: "ip"}, {K: "str", Desc: "port"}, {K: "ref", Desc: "splitErr"}}}, true
+						}
+						if callee == "modules/l4proxy.hash" {
+							return SV{K: "int", Desc: ev.fresh("hash")}, true
+						}
+						return symOpaque(shortCallee(callee)), true
+					}
+					return SV{}, false
+				}
+				sc.Alts = func(callee string, args []SV, ev *symEval, st *symState) []CallAlt {
+					if callee == "sync/atomic.AddUint32" && n > 0 {
+						// the shared round-robin counter can hold any value at the first increment (every residue modulo
+						// the pool size is explored); later increments of the same selection continue from it
+						if prev, ok := st.heap["robin.val"]; ok {
+							v := prev.N + 1
+							return []CallAlt{{Ret: symInt(v), Note: fmt.Sprintf("counter=%d", v), Effect: func(ev *symEval, st *symState) { st.heap["robin.val"] = symInt(v) }}}
+						}
+						var a []CallAlt
+						for i := int64(0); i < int64(n); i++ {
+							v := i
+							a = append(a, CallAlt{Ret: symInt(v), Note: fmt.Sprintf("counter=%d", v), Effect: func(ev *symEval, st *symState) { st.heap["robin.val"] = symInt(v) }})
+						}
+						return a
+					}
+					if callee == "math/rand.Intn" && len(args) == 1 && args[0].K == "int" && args[0].Known && args[0].N <= 4 {
 						var a []CallAlt
 						for i := int64(0); i < args[0].N; i++ {
 							a = append(a, CallAlt{Ret: symInt(i), Note: fmt.Sprint(i)})
 						}
 						return a
 					}
+					return nil
 				}
-				return nil
-			}
-			paths, err := evalPaths(fn, sc)
-			if err != nil || len(paths) == 0 {
-				p1 = append(p1, fmt.Sprintf("undecided for n=%d: %v", n, err))
-				continue
-			}
-			total += len(paths)
-			for _, p := range paths {
-				if p.Outcome != "return" || len(p.Ret) != 1 {
-					p1 = append(p1, "path without normal return (bound reached?): "+fmtTrace(p))
+				unknownSlot = ""
+				paths, err := evalPaths(fn, sc)
+				if err != nil || len(paths) == 0 {
+					p1 = append(p1, fmt.Sprintf("undecided for %s: %v", sc.Name, err))
 					continue
 				}
-				avail := map[string]bool{}
-				var order []string
-				conns := map[string]string{}
-				for _, e := range p.Trace {
-					if e.Kind == "nilderef" {
-						p1 = append(p1, "method "+e.What+" is called on a nil upstream (empty slot): nil-pointer panic in the connection goroutine")
+				if unknownSlot != "" {
+					p1 = append(p1, "undecided: the policy asks about "+unknownSlot+", which the evaluation cannot identify with a pool slot")
+				}
+				total += len(paths)
+				firstAvail := -1
+				for i := 0; i < n; i++ {
+					if availV[i] && firstAvail < 0 {
+						firstAvail = i
 					}
-					if e.Kind == "call" && e.What == availID {
-						if e.Note == "T" && !avail[e.Args[0]] {
-							order = append(order, e.Args[0])
+				}
+				anyAvail := firstAvail >= 0
+				for _, p := range paths {
+					if p.Outcome != "return" || len(p.Ret) != 1 {
+						p1 = append(p1, "path without normal return (bound reached?) for "+sc.Name+": "+fmtTrace(p))
+						continue
+					}
+					for _, e := range p.Trace {
+						if e.Kind == "nilderef" {
+							p1 = append(p1, "method "+e.What+" is called on a nil upstream (empty slot): nil-pointer panic in the connection goroutine")
 						}
-						avail[e.Args[0]] = avail[e.Args[0]] || e.Note == "T"
-						if e.Note == "F" {
-							if _, seen := avail[e.Args[0]]; !seen {
-								avail[e.Args[0]] = false
+					}
+					ret := p.Ret[0]
+					isNil := ret.Known && ret.Nil
+					k := idxOf(ret.Desc)
+					if !isNil {
+						if k < 0 || !availV[k] {
+							p1 = append(p1, "returns "+ret.Desc+" which is not available in pool state "+sc.Name)
+						}
+					}
+					if isNil && anyAvail && sp.iff {
+						p2 = append(p2, fmt.Sprintf("returns nil although pool[%d] is available (pool state %s)", firstAvail, sc.Name))
+					}
+					if !isNil && !anyAvail {
+						p2 = append(p2, "returns an upstream although none is available ("+sc.Name+")")
+					}
+					if sp.first && !isNil && anyAvail && k != firstAvail {
+						p3 = append(p3, fmt.Sprintf("returns %s although the earlier pool[%d] is available (%s)", ret.Desc, firstAvail, sc.Name))
+					}
+					if sp.least && !isNil && k >= 0 {
+						for u := 0; u < n; u++ {
+							if availV[u] && connV[u] < connV[k] {
+								p3 = append(p3, fmt.Sprintf("returns %s with %d connections although available pool[%d] has %d (%s)", ret.Desc, connV[k], u, connV[u], sc.Name))
 							}
-						}
-					}
-					if e.Kind == "call" && e.What == totalID {
-						conns[e.Args[0]] = e.Note
-					}
-				}
-				ret := p.Ret[0]
-				isNil := ret.Known && ret.Nil
-				anyAvail := len(order) > 0
-				if !isNil {
-					if !avail[ret.Desc] {
-						p1 = append(p1, "returns "+ret.Desc+" which available() did not report as available on this path: "+fmtTrace(p))
-					}
-				}
-				if isNil && anyAvail && sp.iff {
-					p2 = append(p2, "returns nil although "+order[0]+" is available: "+fmtTrace(p))
-				}
-				if !isNil && !anyAvail {
-					p2 = append(p2, "returns an upstream although none is available")
-				}
-				if sp.first && !isNil && anyAvail && ret.Desc != order[0] {
-					p3 = append(p3, "returns "+ret.Desc+" although the earlier "+order[0]+" is available")
-				}
-				if sp.least && !isNil {
-					for u, a := range avail {
-						if a && conns[u] != "" && conns[ret.Desc] != "" && conns[u] < conns[ret.Desc] {
-							p3 = append(p3, fmt.Sprintf("returns %s with %s connections although available %s has %s", ret.Desc, conns[ret.Desc], u, conns[u]))
 						}
 					}
 				}
